@@ -295,8 +295,13 @@ func (fv *FV) applyContract(st *State, call *ast.CallExpr, fc *FuncContract, sel
 					return t, true
 				}
 			}
-			t, ok := pre[name]
-			return t, ok
+			if t, ok := pre[name]; ok {
+				return t, true
+			}
+			if strings.Contains(name, ".") {
+				return fv.lookupGlobal(fc.Pkg, name)
+			}
+			return Term{}, false
 		}
 		return env
 	}
